@@ -850,6 +850,10 @@ def pick_variant(rng, op, fa, fb, la, lb):
     elif r < 0.24:
         den_a = rng.choice([(2,), (3,)])
         den_b = rng.choice([(2,), (3,)])
+    elif r < 0.30 and op in ('add', 'sub'):
+        # same denominator rank, different shapes, one of them of length one: a denominator axis
+        # is an item axis and must not broadcast (seeded change C04-B)
+        den_a, den_b = rng.choice([((1,), (3,)), ((3,), (1,)), ((1,), (2,)), ((2,), (1,)), ((1,), (1,))])
     if op in ('add', 'sub') and rng.random() < 0.12:     # exactly one denominator
         den_a, den_b = rng.choice([((2,), ()), ((), (2,)), ((3,), ()), ((), (3,)), ((1,), ()), ((), (1,))])
     a = b = None
@@ -882,12 +886,12 @@ def pick_variant(rng, op, fa, fb, la, lb):
     if not qa:
         shape = tuple(la)
         if op in ('add', 'sub') and rng.random() < 0.85:
-            shape = shape + tuple(b['numer']) + tuple(b['denom'])
+            shape = shape + tuple(b['numer']) + (tuple(b['denom']) if rng.random() < 0.8 else (1,) * len(b['denom']))
         a = gen_nonq(rng, fa, shape, lo=lo, hi=hi)
     if not qb:
         shape = tuple(lb)
         if op in ('add', 'sub') and rng.random() < 0.85:
-            shape = shape + tuple(a['numer']) + tuple(a['denom'])
+            shape = shape + tuple(a['numer']) + (tuple(a['denom']) if rng.random() < 0.8 else (1,) * len(a['denom']))
         elo, ehi = (-2, 3) if op == 'pow' else (lo, hi)
         b = gen_nonq(rng, fb, shape, lo=elo, hi=ehi)
     return {'op': op, 'a': a, 'b': b}
